@@ -67,20 +67,69 @@ fn shown<E: std::fmt::Display + std::fmt::Debug>(e: &E) {
     let b = format!("{:?}", e);
     std::hint::black_box((a, b));
 }
-fn shown_mpe(e: &wow_srp::error::MatchProofsError) {
+fn shown_mpe(e: &wow_srp::error::MatchProofsError) -> Result<(), String> {
     shown(e);
     let s = wow_srp::error::SrpError::from(wow_srp::error::MatchProofsError { client_proof: e.client_proof, server_proof: e.server_proof });
     shown(&s);
+    // "the error carries both proofs": what the caller prints (directly or after `?` into SrpError) must show the two values the
+    // error holds, the presented one before the expected one (only the rendering of the arrays is fixed here, not the wording)
+    let (c, v) = (format!("{:x?}", e.client_proof), format!("{:x?}", e.server_proof));
+    for text in [e.to_string(), s.to_string()] {
+        let ok = match (text.find(&c), text.rfind(&v)) {
+            (Some(i), Some(j)) => c == v || i < j,
+            _ => false,
+        };
+        if !ok {
+            return Err("DISAGREE error display does not show both proofs".into());
+        }
+    }
+    Ok(())
 }
+
+thread_local! {
+    static CLONE_SEQ: std::cell::Cell<u32> = std::cell::Cell::new(0);
+}
+thread_local! {
+    /// how values of the library's Clone types travel through the harness on this line: 0 as they are, 1 through `clone()` (the
+    /// original dropped), 2 through `clone_from` into a value of the same type that held something else.  Set per line from a hash
+    /// of the line, so every kind of call is seen in all three modes and a replay is exact.
+    static CLONE_MODE: std::cell::Cell<u8> = std::cell::Cell::new(0);
+}
+/// A copy made by `clone()` / `clone_from()` IS the original (the model reads Clone as a field-wise copy): every SRP object the
+/// harness holds between two library calls passes through here.
+fn thru<T: Clone + PartialEq>(t: T) -> Result<T, String> {
+    match CLONE_MODE.with(|m| m.get()) {
+        0 => Ok(t),
+        1 => {
+            let c = t.clone();
+            if c != t {
+                return Err("DISAGREE clone != original".into());
+            }
+            drop(t);
+            Ok(c)
+        }
+        _ => {
+            let mut c = t.clone();
+            let d = t.clone();
+            c.clone_from(&d);
+            if c != t || d != t {
+                return Err("DISAGREE clone_from != original".into());
+            }
+            drop(t);
+            drop(d);
+            Ok(c)
+        }
+    }
+}
+#[allow(unreachable_patterns)]
 fn pkerr(e: &InvalidPublicKeyError) -> &'static str {
     shown(e);
-    std::hint::black_box(wow_srp::error::SrpError::from(match e {
-        InvalidPublicKeyError::PublicKeyIsZero => InvalidPublicKeyError::PublicKeyIsZero,
-        InvalidPublicKeyError::PublicKeyModLargeSafePrimeIsZero => InvalidPublicKeyError::PublicKeyModLargeSafePrimeIsZero,
-    }).to_string());
+    // (wildcard arms: a tree that ADDS a refusal kind must still build here, so that the refusal shows up as a concrete failing
+    // line instead of an unbuildable harness)
     match e {
-        InvalidPublicKeyError::PublicKeyIsZero => "zero",
-        InvalidPublicKeyError::PublicKeyModLargeSafePrimeIsZero => "modzero",
+        InvalidPublicKeyError::PublicKeyIsZero => { std::hint::black_box(wow_srp::error::SrpError::from(InvalidPublicKeyError::PublicKeyIsZero).to_string()); "zero" }
+        InvalidPublicKeyError::PublicKeyModLargeSafePrimeIsZero => { std::hint::black_box(wow_srp::error::SrpError::from(InvalidPublicKeyError::PublicKeyModLargeSafePrimeIsZero).to_string()); "modzero" }
+        _ => "other-refusal",
     }
 }
 
@@ -250,7 +299,6 @@ fn wr_result(r: io::Result<()>, sink: &[u8]) -> String {
     }
 }
 
-#[derive(Clone)]
 enum HObj {
     VComb(vanilla_header::HeaderCrypto),
     VHalves(vanilla_header::EncrypterHalf, vanilla_header::DecrypterHalf),
@@ -260,6 +308,36 @@ enum HObj {
     WCliHalves(wrath_header::ClientEncrypterHalf, wrath_header::ClientDecrypterHalf),
     WSrv(wrath_header::ServerCrypto),
     WSrvHalves(wrath_header::ServerEncrypterHalf, wrath_header::ServerDecrypterHalf),
+}
+
+impl Clone for HObj {
+    fn clone(&self) -> Self {
+        match self {
+            HObj::VComb(c) => HObj::VComb(c.clone()),
+            HObj::VHalves(e, d) => HObj::VHalves(e.clone(), d.clone()),
+            HObj::TComb(c) => HObj::TComb(c.clone()),
+            HObj::THalves(e, d) => HObj::THalves(e.clone(), d.clone()),
+            HObj::WCli(c) => HObj::WCli(c.clone()),
+            HObj::WCliHalves(e, d) => HObj::WCliHalves(e.clone(), d.clone()),
+            HObj::WSrv(c) => HObj::WSrv(c.clone()),
+            HObj::WSrvHalves(e, d) => HObj::WSrvHalves(e.clone(), d.clone()),
+        }
+    }
+    /// `clone_from` reaches the library types' OWN `clone_from` (a derived `Clone` on this enum would replace the whole value and
+    /// never call them)
+    fn clone_from(&mut self, src: &Self) {
+        match (self, src) {
+            (HObj::VComb(a), HObj::VComb(b)) => a.clone_from(b),
+            (HObj::VHalves(a, c), HObj::VHalves(b, d)) => { a.clone_from(b); c.clone_from(d) }
+            (HObj::TComb(a), HObj::TComb(b)) => a.clone_from(b),
+            (HObj::THalves(a, c), HObj::THalves(b, d)) => { a.clone_from(b); c.clone_from(d) }
+            (HObj::WCli(a), HObj::WCli(b)) => a.clone_from(b),
+            (HObj::WCliHalves(a, c), HObj::WCliHalves(b, d)) => { a.clone_from(b); c.clone_from(d) }
+            (HObj::WSrv(a), HObj::WSrv(b)) => a.clone_from(b),
+            (HObj::WSrvHalves(a, c), HObj::WSrvHalves(b, d)) => { a.clone_from(b); c.clone_from(d) }
+            (s, b) => *s = b.clone(),
+        }
+    }
 }
 
 fn vsession(k: [u8; 40]) -> vanilla_header::HeaderCrypto {
@@ -633,12 +711,24 @@ fn hdr_op(o: &mut HObj, tok: &str) -> R {
         }
         ["clone"] => {
             // through clone() and then clone_from() into an object of the same kind that has seen other traffic
+            // (the target differs from the source in ONE respect at a time: a different stream position, or — after exactly one key
+            // period of other bytes, 40 being a multiple of both key lengths — the same position with a different chaining byte)
             let c = o.clone();
             let mut t = o.clone();
-            let mut junk = [0x5au8; 7];
-            t.enc(&mut junk, false);
-            let mut junk = [0xa5u8; 3];
-            t.dec(&mut junk, false);
+            let mode = CLONE_SEQ.with(|m| { let v = m.get(); m.set(v.wrapping_add(1)); v }) % 3;
+            if mode == 0 {
+                let mut junk = [0x5au8; 7];
+                t.enc(&mut junk, false);
+                let mut junk = [0xa5u8; 3];
+                t.dec(&mut junk, false);
+            } else {
+                let mut junk = [0u8; 40];
+                for (i, b) in junk.iter_mut().enumerate() { *b = (i as u8).wrapping_mul(37) ^ (mode as u8); }
+                t.enc(&mut junk, false);
+                let mut junk = [0u8; 40];
+                for (i, b) in junk.iter_mut().enumerate() { *b = (i as u8).wrapping_mul(11).wrapping_add(mode as u8); }
+                t.dec(&mut junk, false);
+            }
             t.clone_from(&c);
             *o = t;
             "ok".into()
@@ -661,8 +751,8 @@ fn hdr_new(exp: &str, role: &str, k: [u8; 40]) -> Result<HObj, String> {
 fn full_login(u: &str, p: &str) -> Result<(SrpServer, wow_srp::client::SrpClient), String> {
     let un = ns(u)?;
     let pw = ns(p)?;
-    let ver = SrpVerifier::from_username_and_password(un.clone(), pw.clone());
-    let proof = ver.into_proof();
+    let ver = thru(SrpVerifier::from_username_and_password(un.clone(), pw.clone()))?;
+    let proof = thru(ver.into_proof())?;
     let b = PublicKey::from_le_bytes(*proof.server_public_key()).map_err(|_| "fail badB".to_string())?;
     let salt = *proof.salt();
     let cc = SrpClientChallenge::new(
@@ -673,12 +763,13 @@ fn full_login(u: &str, p: &str) -> Result<(SrpServer, wow_srp::client::SrpClient
         b,
         salt,
     );
+    let cc = thru(cc)?;
     let a = PublicKey::from_le_bytes(*cc.client_public_key()).map_err(|_| "fail badA".to_string())?;
     let (srv, m2) = proof
         .into_server(a, *cc.client_proof())
         .map_err(|_| "fail m1".to_string())?;
     let cl = cc.verify_server_proof(m2).map_err(|_| "fail m2".to_string())?;
-    Ok((srv, cl))
+    Ok((thru(srv)?, thru(cl)?))
 }
 
 fn hash_of<T: Hash>(t: &T) -> u64 {
@@ -732,6 +823,8 @@ fn run_op(a: &[&str]) -> R {
                     shown(&wow_srp::error::SrpError::from(wow_srp::error::NormalizedStringError::CharacterNotAllowed(*c)));
                     format!("err char {}", *c as u32)
                 }
+                #[allow(unreachable_patterns)]
+                Err(_) => "err other-refusal".to_string(),
             };
             let s1 = show(&r1);
             for r in [&r2, &r3, &r4, &r5] {
@@ -803,6 +896,8 @@ fn run_op(a: &[&str]) -> R {
                         n_char += 1;
                         h = fnv_bytes(fnv_step(h, 2), &(c as u32).to_le_bytes());
                     }
+                    #[allow(unreachable_patterns)]
+                    Err(_) => h = fnv_step(h, 9),
                 }
             }
             format!("fnv {:016x} ok={} len={} char={}", h, n_ok, n_len, n_char)
@@ -838,12 +933,14 @@ fn run_op(a: &[&str]) -> R {
                         n_mod += 1;
                         h = fnv_step(h, 2);
                     }
+                    #[allow(unreachable_patterns)]
+                    Err(_) => h = fnv_step(h, 9),
                 }
             }
             format!("fnv {:016x} ok={} zero={} mod={}", h, n_ok, n_zero, n_mod)
         }
         ["srv.register", u, p] => {
-            let v = SrpVerifier::from_username_and_password(ns(u)?, ns(p)?);
+            let v = thru(SrpVerifier::from_username_and_password(ns(u)?, ns(p)?))?;
             format!(
                 "ok {} {} {}",
                 hex(v.username().as_bytes()),
@@ -852,40 +949,38 @@ fn run_op(a: &[&str]) -> R {
             )
         }
         ["srv.proof", u, v, salt] => {
-            let ver = SrpVerifier::from_database_values(ns(u)?, arr(v)?, arr(salt)?);
-            let p = ver.into_proof();
+            let ver = thru(SrpVerifier::from_database_values(ns(u)?, arr(v)?, arr(salt)?))?;
+            let p = thru(ver.into_proof())?;
             format!("ok {} {}", hex(p.server_public_key()), hex(p.salt()))
         }
         ["srv.server", u, v, salt, pa, m1] => {
-            let ver = SrpVerifier::from_database_values(ns(u)?, arr(v)?, arr(salt)?);
-            let p: SrpProof = ver.into_proof();
+            let ver = thru(SrpVerifier::from_database_values(ns(u)?, arr(v)?, arr(salt)?))?;
+            let p: SrpProof = thru(ver.into_proof())?;
             match PublicKey::from_le_bytes(arr(pa)?) {
                 Err(e) => format!("badA {}", pkerr(&e)),
-                Ok(pk) => match p.into_server(pk, arr(m1)?) {
-                    Ok((srv, m2)) => format!(
-                        "ok {} {} {}",
-                        hex(srv.session_key()),
-                        hex(&m2),
-                        hex(srv.reconnect_challenge_data())
-                    ),
-                    Err(e) => { shown_mpe(&e); format!("err {} {}", hex(&e.client_proof), hex(&e.server_proof)) }
+                Ok(pk) => match p.into_server(thru(pk)?, arr(m1)?) {
+                    Ok((srv, m2)) => {
+                        let srv = thru(srv)?;
+                        format!("ok {} {} {}", hex(srv.session_key()), hex(&m2), hex(srv.reconnect_challenge_data()))
+                    }
+                    Err(e) => { shown_mpe(&e)?; format!("err {} {}", hex(&e.client_proof), hex(&e.server_proof)) }
                 },
             }
         }
         ["cli.new", u, p, g, n, b, salt] => match PublicKey::from_le_bytes(arr(b)?) {
             Err(e) => format!("badB {}", pkerr(&e)),
             Ok(pb) => {
-                let cc = SrpClientChallenge::new(ns(u)?, ns(p)?, num(g)?, arr(n)?, pb, arr(salt)?);
+                let cc = thru(SrpClientChallenge::new(thru(ns(u)?)?, thru(ns(p)?)?, num(g)?, arr(n)?, thru(pb)?, arr(salt)?))?;
                 format!("ok {} {}", hex(cc.client_public_key()), hex(cc.client_proof()))
             }
         },
         ["cli.verify", u, p, g, n, b, salt, m2] => match PublicKey::from_le_bytes(arr(b)?) {
             Err(e) => format!("badB {}", pkerr(&e)),
             Ok(pb) => {
-                let cc = SrpClientChallenge::new(ns(u)?, ns(p)?, num(g)?, arr(n)?, pb, arr(salt)?);
+                let cc = thru(SrpClientChallenge::new(ns(u)?, ns(p)?, num(g)?, arr(n)?, pb, arr(salt)?))?;
                 match cc.verify_server_proof(arr(m2)?) {
-                    Ok(cl) => format!("ok {}", hex(cl.session_key())),
-                    Err(e) => { shown_mpe(&e); format!("err {} {}", hex(&e.client_proof), hex(&e.server_proof)) }
+                    Ok(cl) => format!("ok {}", hex(thru(cl)?.session_key())),
+                    Err(e) => { shown_mpe(&e)?; format!("err {} {}", hex(&e.client_proof), hex(&e.server_proof)) }
                 }
             }
         },
@@ -932,8 +1027,9 @@ fn run_op(a: &[&str]) -> R {
             } else {
                 ver0
             };
+            let ver = thru(ver)?;
             let vbytes = *ver.password_verifier();
-            let proof = ver.into_proof();
+            let proof = thru(ver.into_proof())?;
             let b = match PublicKey::from_le_bytes(*proof.server_public_key()) {
                 Ok(b) => b,
                 Err(_) => return Ok("fail client rejects B".into()),
@@ -947,6 +1043,7 @@ fn run_op(a: &[&str]) -> R {
                 b,
                 *proof.salt(),
             );
+            let cc = thru(cc)?;
             let pa = match PublicKey::from_le_bytes(*cc.client_public_key()) {
                 Ok(a) => a,
                 Err(_) => return Ok("fail server rejects A".into()),
@@ -980,6 +1077,7 @@ fn run_op(a: &[&str]) -> R {
             }
             let mut out = format!("ok {}", hex(srv.reconnect_challenge_data()));
             for i in 0..k {
+                srv = thru(srv)?;
                 let v = srv.verify_reconnection_attempt(arr(rest[2 * i])?, arr(rest[2 * i + 1])?);
                 out.push_str(&format!(" {} {}", v as u8, hex(srv.reconnect_challenge_data())));
             }
@@ -1021,7 +1119,7 @@ fn run_op(a: &[&str]) -> R {
                     let sv = seed.seed();
                     match seed.into_server_header_crypto(&un, arr(k)?, arr(proof)?, num(cs)?) {
                         Ok(c) => format!("ok {} {}", sv, HObj::VComb(c).probe()),
-                        Err(e) => { shown_mpe(&e); format!("err {} {} {}", hex(&e.client_proof), hex(&e.server_proof), sv) }
+                        Err(e) => { shown_mpe(&e)?; format!("err {} {} {}", hex(&e.client_proof), hex(&e.server_proof), sv) }
                     }
                 }
                 "t" => {
@@ -1029,7 +1127,7 @@ fn run_op(a: &[&str]) -> R {
                     let sv = seed.seed();
                     match seed.into_server_header_crypto(&un, arr(k)?, arr(proof)?, num(cs)?) {
                         Ok(c) => format!("ok {} {}", sv, HObj::TComb(c).probe()),
-                        Err(e) => { shown_mpe(&e); format!("err {} {} {}", hex(&e.client_proof), hex(&e.server_proof), sv) }
+                        Err(e) => { shown_mpe(&e)?; format!("err {} {} {}", hex(&e.client_proof), hex(&e.server_proof), sv) }
                     }
                 }
                 _ => {
@@ -1037,7 +1135,7 @@ fn run_op(a: &[&str]) -> R {
                     let sv = seed.seed();
                     match seed.into_server_header_crypto(&un, arr(k)?, arr(proof)?, num(cs)?) {
                         Ok(c) => format!("ok {} {}", sv, HObj::WSrv(c).probe()),
-                        Err(e) => { shown_mpe(&e); format!("err {} {} {}", hex(&e.client_proof), hex(&e.server_proof), sv) }
+                        Err(e) => { shown_mpe(&e)?; format!("err {} {} {}", hex(&e.client_proof), hex(&e.server_proof), sv) }
                     }
                 }
             }
@@ -1393,6 +1491,8 @@ fn step(line: &str) -> String {
     let args: Vec<&str> = cmd.split(' ').filter(|s| !s.is_empty()).collect();
     rand::verif_inject(&rng);
     let _ = rand::verif_take_log();
+    CLONE_MODE.with(|m| m.set((fnv_bytes(FNV_INIT, line.as_bytes()) % 3) as u8));
+    CLONE_SEQ.with(|m| m.set((fnv_bytes(FNV_INIT, line.as_bytes()) / 3 % 3) as u32));     // per line, so a replayed line behaves the same
     let r = catch_unwind(AssertUnwindSafe(|| run_op(&args)));
     let used: usize = rand::verif_take_log().iter().map(|d| d.len()).sum();
     match r {
